@@ -43,8 +43,11 @@ pub struct RenderContext<'reg: 'rc, 'rc> {
     modified_context: Option<Rc<Context>>,
 
     partials: BTreeMap<String, &'rc Template>,
-    partial_block_stack: VecDeque<&'rc Template>,
-    partial_block_depth: isize,
+    // bodies of the enclosing `{{#> }}` calls, innermost last; each remembers what
+    // `@partial-block` denoted where that body was written
+    partial_block_stack: Vec<(&'rc Template, Option<usize>)>,
+    // the entry of `partial_block_stack` that `@partial-block` denotes at the moment
+    partial_block_binding: Option<usize>,
     local_helpers: BTreeMap<String, Rc<dyn HelperDef + Send + Sync + 'rc>>,
     /// current template name
     current_template: Option<&'rc String>,
@@ -74,8 +77,8 @@ impl<'reg: 'rc, 'rc> RenderContext<'reg, 'rc> {
         let modified_context = None;
         RenderContext {
             partials: BTreeMap::new(),
-            partial_block_stack: VecDeque::new(),
-            partial_block_depth: 0,
+            partial_block_stack: Vec::new(),
+            partial_block_binding: None,
             local_helpers: BTreeMap::new(),
             current_template: None,
             root_template,
@@ -169,9 +172,9 @@ impl<'reg: 'rc, 'rc> RenderContext<'reg, 'rc> {
     pub fn get_partial(&self, name: &str) -> Option<&'rc Template> {
         if name == partial::PARTIAL_BLOCK {
             return self
-                .partial_block_stack
-                .get(self.partial_block_depth as usize)
-                .copied();
+                .partial_block_binding
+                .and_then(|idx| self.partial_block_stack.get(idx))
+                .map(|block| block.0);
         }
         self.partials.get(name).copied()
     }
@@ -181,23 +184,33 @@ impl<'reg: 'rc, 'rc> RenderContext<'reg, 'rc> {
         self.partials.insert(name, partial);
     }
 
+    /// Enter a partial called with a block body: inside it `@partial-block`
+    /// denotes that body.
     pub(crate) fn push_partial_block(&mut self, partial: &'rc Template) {
-        self.partial_block_stack.push_front(partial);
+        self.partial_block_stack
+            .push((partial, self.partial_block_binding));
+        self.partial_block_binding = Some(self.partial_block_stack.len() - 1);
     }
 
     pub(crate) fn pop_partial_block(&mut self) {
-        self.partial_block_stack.pop_front();
+        self.partial_block_stack.pop();
     }
 
-    pub(crate) fn inc_partial_block_depth(&mut self) {
-        self.partial_block_depth += 1;
+    /// Enter the body denoted by `@partial-block`: inside it `@partial-block`
+    /// means what it meant where that body was written.
+    pub(crate) fn enter_partial_block(&mut self) {
+        self.partial_block_binding = self
+            .partial_block_binding
+            .and_then(|idx| self.partial_block_stack.get(idx))
+            .and_then(|block| block.1);
     }
 
-    pub(crate) fn dec_partial_block_depth(&mut self) {
-        let depth = &mut self.partial_block_depth;
-        if *depth > 0 {
-            *depth -= 1;
-        }
+    pub(crate) fn get_partial_block_binding(&self) -> Option<usize> {
+        self.partial_block_binding
+    }
+
+    pub(crate) fn set_partial_block_binding(&mut self, binding: Option<usize>) {
+        self.partial_block_binding = binding;
     }
 
     pub(crate) fn set_indent_string(&mut self, indent: Option<Cow<'rc, str>>) {
@@ -331,7 +344,7 @@ impl fmt::Debug for RenderContext<'_, '_> {
             .field("modified_context", &self.modified_context)
             .field("partials", &self.partials)
             .field("partial_block_stack", &self.partial_block_stack)
-            .field("partial_block_depth", &self.partial_block_depth)
+            .field("partial_block_binding", &self.partial_block_binding)
             .field("root_template", &self.root_template)
             .field("current_template", &self.current_template)
             .field("disable_escape", &self.disable_escape)
